@@ -320,7 +320,7 @@ _u4('C13', 'Unbounded proof, for stacks of any depth: ReadOnlyCache::get/touch r
 _u4('C14', 'Unbounded proof, for stacks of any depth: with a checker configured, ReadOnlyCache::get succeeds only if the checker accepted the first copy against every copy held by a later '
     'level (later_copies_accepted); Cache::get::doit and Cache::get_or_update with a write-side hit only if the checker accepted that hit against the first read-only copy and that copy '
     'against every later one (read_copies_accepted); get_or_update with an accepted or promoted hit returns Ok only if populate reported NotFound (World.app_not_found grew) or the checker '
-    'accepted the hit against a freshly created, populated file; a rejected comparison or a failed lookup reaches the caller as Err; without a checker no level after the first hit is consulted.',
+    'accepted the hit against a freshly created, populated file; a rejected comparison or a failed lookup reaches the caller as Err; without a checker no level after the first hit is consulted; the builder installs a checker on both sides (CacheBuilder::arc_consistency_checker / build maintain and use the invariant that both sides hold the same checker); the stock byte_equality_checker returns Ok exactly when the remaining bytes of the two files are equal (Err on a difference or a failed read).',
     replayer=_native('c13', [], []),
     not_covered=['checker panics (no catch_unwind exists in the functions under contract; unwinding is not a contract)',
                  ],
